@@ -33,20 +33,25 @@ func (h *Sources) Save() {
 		return
 	}
 
-	// When the line is identical to the previous undo, we just update
-	// the cursor position if it's a different one.
-	if len(line.items) > 0 && line.items[len(line.items)-1].line == string(*h.line) {
-		line.items[len(line.items)-1].pos = h.cursor.Pos()
-		return
-	}
-
 	// When we add an item to the undo history, the history
 	// is cut from the current undo hist position onwards.
 	if line.pos > len(line.items) {
 		line.pos = len(line.items)
 	}
 
-	line.items = line.items[:len(line.items)-line.pos]
+	// The state we have undone to (the one at the current
+	// position) is kept: only those after it are dropped.
+	if line.pos > 0 {
+		line.items = line.items[:len(line.items)-line.pos+1]
+		line.pos = 0
+	}
+
+	// When the line is identical to the previous undo, we just update
+	// the cursor position if it's a different one.
+	if len(line.items) > 0 && line.items[len(line.items)-1].line == string(*h.line) {
+		line.items[len(line.items)-1].pos = h.cursor.Pos()
+		return
+	}
 
 	// Make a copy of the cursor and ensure its position.
 	cur := core.NewCursor(h.line)
@@ -191,6 +196,12 @@ func (h *Sources) Reset() {
 	}
 
 	if !h.undoing {
+		// Any other command than undo/redo ends the series: the states that
+		// were undone cannot be redone any more, and must not be undone to.
+		if line.pos > 0 && line.pos <= len(line.items) {
+			line.items = line.items[:len(line.items)-line.pos+1]
+		}
+
 		line.pos = 0
 	}
 
